@@ -35,10 +35,16 @@ ModSet == {"E", "L1", "L2"}
 Kinds == {"func", "data"}
 RefKinds == {"got", "dataptr", "direct", "none"}
 
-CONSTANT Variant     \* "correct" | "NoExportCopy" | "NoCanonicalPlt" | "LocalBindInLib"
+CONSTANT Variant     \* "correct" | "NoExportCopy" | "NoCanonicalPlt" | "LocalBindInLib" | "NoAliasExport"
 
-VARIABLES kind, def, refs, pie, phase, addrSeen, mem, storeSeen
-vars == <<kind, def, refs, pie, phase, addrSeen, mem, storeSeen>>
+(* Aliases: a library object may have a second, weak name at the same address (the
+   __environ / environ pattern).  usesAlias[m]: module m refers to the entity by the weak name.
+   A copy relocation made for ONE name moves the object: EVERY name of that address must then
+   resolve to the executable's copy, also names nothing in the static link mentions (the library's
+   own references are invisible at link time).  Variant NoAliasExport exports the copy only under
+   the name the executable itself used. *)
+VARIABLES kind, def, refs, pie, phase, addrSeen, mem, storeSeen, alias, usesAlias
+vars == <<kind, def, refs, pie, phase, addrSeen, mem, storeSeen, alias, usesAlias>>
 
 (* abstract addresses: the definition, E's copy, E's PLT entry *)
 AddrDef == 100
@@ -52,14 +58,19 @@ Scenarios == {r \in [ModSet -> RefKinds] :
 NeedsCopy == kind = "data" /\ def # "E" /\ refs["E"] = "direct"
 NeedsCanonicalPlt == kind = "func" /\ def # "E" /\ refs["E"] = "direct"
 
-(* what E's dynamic symbol table says about x *)
-EExportsDefinition == def = "E" \/ (NeedsCopy /\ Variant # "NoExportCopy")
+(* what E's dynamic symbol table says about the name module m uses for x *)
+EExportsDefinitionOf(m) ==
+    \/ def = "E"
+    \/ /\ NeedsCopy /\ Variant # "NoExportCopy"
+       \* the copy is exported under the name E used; under the other name of the address too,
+       \* unless the variant forgets aliases
+       /\ (usesAlias[m] = usesAlias["E"] \/ Variant # "NoAliasExport")
 EHasCanonicalPlt == NeedsCanonicalPlt /\ Variant # "NoCanonicalPlt"
 
 (* global lookup of x for a GLOB_DAT / R_64 reference made by module m *)
 Lookup(m) ==
     IF Variant = "LocalBindInLib" /\ m = def /\ m # "E" THEN AddrDef      \* -Bsymbolic-like local binding
-    ELSE IF EExportsDefinition THEN (IF def = "E" THEN AddrDef ELSE AddrCopy)
+    ELSE IF EExportsDefinitionOf(m) THEN (IF def = "E" THEN AddrDef ELSE AddrCopy)
     ELSE IF EHasCanonicalPlt THEN AddrPlt
     ELSE AddrDef
 
@@ -72,6 +83,11 @@ Init == /\ kind \in Kinds /\ def \in ModSet /\ refs \in Scenarios /\ pie \in BOO
         (* the address of a function is taken directly only by non-PIC code of a non-PIE executable
            (R_X86_64_32); PIE code and PC-relative references to functions are calls, not addresses *)
         /\ (kind = "func" /\ pie) => refs["E"] # "direct"
+        /\ alias \in BOOLEAN
+        /\ alias => (kind = "data" /\ def # "E")              \* aliased library objects
+        /\ usesAlias \in [ModSet -> BOOLEAN]
+        /\ \A m \in ModSet : usesAlias[m] => (alias /\ refs[m] # "none")
+        /\ alias => \E m \in ModSet : usesAlias[m]
         /\ phase = "linked"
         /\ addrSeen = [m \in ModSet |-> 0]
         /\ mem = [a \in {AddrDef, AddrCopy, AddrPlt} |-> 0]
@@ -82,7 +98,7 @@ Load == /\ phase = "linked"
         (* COPY relocation: the initial value (1) is copied into E's copy *)
         /\ mem' = [mem EXCEPT ![AddrDef] = 1, ![AddrCopy] = IF NeedsCopy THEN 1 ELSE 0]
         /\ phase' = "loaded"
-        /\ UNCHANGED <<kind, def, refs, pie, storeSeen>>
+        /\ UNCHANGED <<kind, def, refs, pie, storeSeen, alias, usesAlias>>
 
 Users == {m \in ModSet : refs[m] # "none"}
 Writer == CHOOSE m \in Users : TRUE
@@ -91,7 +107,7 @@ Store == /\ phase = "loaded" /\ kind = "data"
          /\ mem' = [mem EXCEPT ![addrSeen[Writer]] = 7]
          /\ storeSeen' = [m \in ModSet |-> IF m \in Users THEN (IF addrSeen[m] = addrSeen[Writer] THEN 7 ELSE mem[addrSeen[m]]) ELSE 7]
          /\ phase' = "stored"
-         /\ UNCHANGED <<kind, def, refs, pie, addrSeen>>
+         /\ UNCHANGED <<kind, def, refs, pie, addrSeen, alias, usesAlias>>
 
 Next == Load \/ Store \/ (phase \in {"loaded", "stored"} /\ UNCHANGED vars)
 Spec == Init /\ [][Next]_vars
